@@ -492,6 +492,11 @@ func literalShapes(maxM int, tier string) []string {
 			add(assignLeaves(sh, strings.Repeat("v", len(leafSlots(sh)))))
 		}
 	}
+	// integer literal boundaries (FormatInt / ParseInt are standard library: concrete values only)
+	for _, lit := range []string{"9223372036854775807", "-9223372036854775808", "-1", "0", "+5", "007"} {
+		add("(+ i0 " + lit + ")")
+		add("(= i0 " + lit + ")")
+	}
 	return out
 }
 
@@ -507,10 +512,26 @@ func init() {
 			for _, src := range literalShapes(1, tier) {
 				units = append(units, Unit{"VerifC13", []string{src, "event", "all"}}, Unit{"VerifC13", []string{src, "debug", "all"}})
 			}
+			// string literal contents: arbitrary characters through lexer → Dump → lexer
+			maxL := 2
+			if tier == "thorough" {
+				maxL = 3
+			}
+			for l := 0; l <= maxL; l++ {
+				for _, form := range []string{"eq", "nested", "list"} {
+					for _, o := range []string{"0000", "1111"} {
+						if l == 3 && o == "1111" {
+							continue
+						}
+						units = append(units, Unit{"VerifC13Literal", []string{itoa2(l), form, o}})
+					}
+				}
+			}
 			return units
 		},
 		Reach:       []string{"recompiled", "folded-to-scalar"},
-		Bounds:      shapeBounds(map[string]interface{}{"leaves": "variables and int/bool literals (each single leaf a literal, all literals, all but the last)", "event_modes": "off for all shapes; ReportEvent and Debug for shapes with ≤1 internal node"}),
+		Bounds:      shapeBounds(map[string]interface{}{"leaves": "variables and int/bool literals (each single leaf a literal, all literals, all but the last)", "event_modes": "off for all shapes; ReportEvent and Debug for shapes with ≤1 internal node",
+			"string_literals": "literals of ≤2 (3 thorough) arbitrary characters (all of Latin-1 as solver variables + U+1680, U+2028, U+3000, '中', '٣', U+FFFD, U+10FFFF, NUL; no double quote) as operand of =, inside an indented sub-expression and as list element"}),
 		Rule:        "one unit per (shape, event mode); all 16 subsets per unit; a state is one symbolic path through Eval of the original and of the recompiled program",
 		Assumptions: []string{"string/list literal contents are covered by the literal sub-check (symbolic characters), see evidence bounds; constants produced by folding a stateless custom operator have no literal form (outside the property)"},
 		WallBudget:  shapeBudget,
